@@ -69,6 +69,11 @@ add([J.Set("cy", J.Call(N("cycler"), [C(1), C("b<")])), J.For(J.TName("i"), N("x
      J.Out(J.Call(J.Getattr(N("cy"), "reset"))), J.Out(J.Getattr(N("cy"), "current")),
      J.Set("jn", J.Call(N("joiner"), [N("s")])), J.For(J.TName("i"), N("xs"), [J.Out(J.Call(N("jn"))), J.Out(N("i"))]), J.Set("j2", J.Call(N("joiner"))), J.Out(J.Call(N("j2"))), J.Out(J.Call(N("j2")))], D, auto=True)
 add([J.Out(J.Slice(N("xs"), C(1))), J.Out(J.Slice(N("xs"), None, J.Neg(C(1)))), J.Out(J.Slice(N("xs"), C(1), C(9))), J.Out(J.Slice(N("xs"), J.Neg(C(9)), C(2))), J.Out(J.Slice(N("xs"), C(2), C(1))), J.Out(J.Slice(N("q"), C(1)))], D)
+dd = J.vdict([(J.vstr("a"), J.vint(1)), (J.vstr("b<"), J.vlist([J.vint(5)]))])
+add([J.For(J.TTuple([J.TName("k"), J.TName("v")]), J.Call(J.Getattr(N("dd"), "items")), [J.Out(N("k")), J.Text("="), J.Out(N("v")), J.Text(";")]),
+     J.Out(J.Filter(J.Call(J.Getattr(N("dd"), "keys")), "join", [C(",")])), J.Out(J.Filter(J.Call(J.Getattr(N("dd"), "values")), "list")),
+     J.Out(J.Call(J.Getattr(N("dd"), "get"), [C("a")])), J.Out(J.Call(J.Getattr(N("dd"), "get"), [C("zz"), N("s")])), J.Out(J.Call(J.Getattr(N("dd"), "get"), [C("zz")])),
+     J.Set("cy", J.Call(N("cycler"), [C(1), C(2)])), J.Do(J.Call(J.Getattr(N("cy"), "next"))), J.Out(J.Getattr(N("cy"), "current"))], ({"dd": dd, "s": J.vstr(X)},), auto=True)
 res, r = jrun.spec_results("SMOKE", cases)
 print("TLC:", r.distinct, "states", round(r.wall, 1), "s ok=", r.ok, r.invariant_violated)
 bad = 0
